@@ -100,6 +100,20 @@ func genC17(g *prng.R) c17Case {
 		}
 		act[k] = vals
 	}
+	if g.Chance(1, 10) {
+		// an addressee this server owns but has nothing stored for (a
+		// deleted local account): the Database answers (nil, nil); it is
+		// not a collection, and the collections next to it still count
+		sc.Cfg.GetNilForMissing = true
+		k := pick(g, "to", "cc", "audience")
+		gone := L + "/users/deleted"
+		if g.Bool() {
+			act[k] = append(A{gone}, asList(act[k])...)
+		} else {
+			act[k] = append(asList(act[k]), gone)
+		}
+		cs0["owned_addressee_without_stored_value"] = true
+	}
 	// reply chain
 	depth := g.Intn(6)
 	ownAt := g.Intn(7) // level (1-based) at which an owned id appears; > depth means never
